@@ -9,7 +9,7 @@
    for return_after and wrap_order the general inductive proof did not fit.  What is proved for all
    interleavings is proved per finite scenario (the scenario is in the statement; the schedule is universally
    quantified, its length unbounded in the statement and bounded by the scenario): hence `_partial`. *)
-From Coq Require Import List Bool Arith.
+From Coq Require Import List Bool Arith Lia.
 From SF Require Import Deploy.Model Deploy.Proofs Deploy.Inductive Deploy.Inductive2 Deploy.Inductive3 Deploy.Inductive4.
 Import ListNotations.
 
@@ -207,6 +207,26 @@ Qed.
 
 Print Assumptions C26_lazy_once_return_after.
 Print Assumptions C26_lazy_fail_wakes.
+
+(* --- deeper chains (sixth round), still BOUNDED in the depth ---
+   chain n = an eager wraps chain of depth n.  (a) deploy(top); undeploy(top) for every depth 1..40; (b)
+   deploy(top); undeploy_all() (n concurrent child tasks) for every depth 1..6, every interleaving: wrap_order,
+   once and return_after in every reachable state.  The arbitrary-depth statement is NOT proved: the recursion
+   through the chain makes the frame stacks unbounded (outside the finite-shape invariants of
+   Deploy/Inductive*.v), and the executable model itself stops being faithful from depth 46 on (fuel0 = 2000
+   micro-steps per atomic stretch; the final unwinding of undeploy's nested loops is quadratic in the depth). *)
+Theorem C26_chain_depth40_sequential_partial : forall n sched, 1 <= n <= 40 ->
+  valid false (chain n) (init (seqreq n)) sched = true ->
+  chP n (seqreq n) (run false (chain n) (init (seqreq n)) sched) = true.
+Proof. exact chain_seq_all_schedules. Qed.
+
+Theorem C26_chain_depth6_undeploy_all_partial : forall n sched, 1 <= n <= 6 ->
+  valid false (chain n) (init (allreq n)) sched = true ->
+  chP n (allreq n) (run false (chain n) (init (allreq n)) sched) = true.
+Proof. exact chain_all_all_schedules. Qed.
+
+Print Assumptions C26_chain_depth40_sequential_partial.
+Print Assumptions C26_chain_depth6_undeploy_all_partial.
 
 (* --- fail_wakes is false of the current code: d1 wraps d0, d0's deploy fails; the second deploy(d1) is
    blocked for ever (no task is ready, task 1 is not done) *)
